@@ -18,14 +18,14 @@ RULE = ('random connected DAGs of 2-10 units with 1-3 inlets/outlets each, sever
         'inlet ports left unconnected (acyclic-/cyclic-missing-inlet; bare AbstractMissingStream and a missing-stream class that carries F_mass); every reported recycle must be a stream docked at a given unit. '
         'A one-shot iterator as unit collection is observed but not judged. '
         'Cyclic cases additionally: every unit listed once; each reported recycle connects two units of the network it is reported for; the reported recycles cut every true cycle '
-        '(true graph minus recycles is acyclic); per network level the items follow the flow: nothing runs backward in a network without recycle; in a loop no backward stream other than its recycle(s) hands a value of the previous pass on around the recycle(s) (not judged when a unit is listed twice). '
+        '(true graph minus recycles is acyclic); per network level the items follow the flow: nothing runs backward in a network without recycle; in a loop no backward stream other than its recycle(s) hands a value of the previous pass on to another such stream (or to itself) without passing a recycle of that loop, i.e. no stream that is not reported carries iteration state of its own (not judged when a unit is listed twice). '
         'The structure of the true cycles (single-loop / disjoint-loops / nested-loops / interlocking-loops, from the case dict) is part of the keys of the loop-joining findings and the reach counter '
         'struct:<class> is what their rates are taken over (the remaining orders of an exhaustive sweep count under sweep:struct:<class> and carry ":all-orders-of-one-graph" in those keys: one graph met up to 715 times); the recorded join_recycle_network raise keeps its key only with the recorded message on interlocking loops. '
         'non-trivial = >=3 units and (>=2 feeds or a branch or a cycle); distinct = hash of (graph, permutation)')
 MIN_NONTRIVIAL = {'quick': 500, 'thorough': 20000}
 ASSUMPTIONS = ['units are bare AbstractUnit subclasses using tmo.Stream (feed ranking reads F_mass)',
                'cyclic flowsheets: "a path that contains exactly the given units" is read as each unit once (as stated for the acyclic case); a recycle is a stream between two units of its own loop network, and every true cycle carries a reported recycle',
-               'order inside a recycle loop (key order-inside-networks/...): a loop is iterated until its reported recycle(s) stand still, so where its path starts is free; demanded is only that a backward stream which is not a recycle of the loop is recomputed from the current recycle values (no value of the previous pass reaches its source around the recycles) - the reading of "follows material flow" under which the reported recycles are sufficient tear streams. The literal third sentence of the statement (any backward stream inside a common loop) is judged separately and unchanged',
+               'order inside a recycle loop (key order-inside-networks/...): a loop is iterated until its reported recycle(s) stand still, so where its path starts is free, and the statement allows any backward stream between two units of a common loop; demanded beyond that is only that such a stream is a function of the recycle values and the feeds: no value of the previous pass may travel from one backward non-recycle stream to the source of another (or of itself) without passing a recycle of the loop - such a stream would be a tear stream of its own that the loop never tests ("a loop whose iteration cannot converge the stale value"). A backward stream whose source gets previous-pass values only through a recycle of the loop is allowed (it lags the recycle by one pass and stands still when the recycle does): demanding that the reported recycles alone are a sufficient (first-order) tear set is more than the statement says and was withdrawn after the thorough run of seed 0 (5 orders of one 10-unit graph, loop [U1, <U0 U3 U7 U9>, U4, U5, U8, U2, U6], recycle U2->U7, backward stream U0->U1). The literal third sentence of the statement (any backward stream inside a common loop) is judged separately and unchanged',
                'a flowsheet built once is reused for the remaining orders of an exhaustive permutation sweep (from_units must leave the connections untouched; checked after each sweep)']
 
 
@@ -418,10 +418,15 @@ def order_inside_networks(net, edges, found):
     """Per network level: the items of a path (units; a sub-network counts as one item) follow the material flow.  `edges` = true streams as (source unit, sink unit, id(stream)).
     - a network WITHOUT recycle is run once: every stream between two different items runs forward;
     - a network WITH recycle(s) is iterated until its recycle(s) stop changing.  A stream that runs backward delivers the value of the previous pass.  That is what a recycle is
-      for; any other backward stream is harmless only if its value is recomputed from the current recycle values, i.e. if no value of the previous pass reaches its source except
-      through a recycle of this network: otherwise the recycle(s) can stand still while the loop is not converged (a stale value is handed on from pass to pass), which is not an
-      order that follows the material flow around the reported recycle.  Test: from the items that receive a backward stream (recycle or not), walk the forward streams that are
-      not recycles of this network; no source of a backward non-recycle stream may be reached (the receiving item itself included).
+      for, and the statement allows any other backward stream between two units of a common loop as well.  What the reported recycles cannot converge is a value of the previous
+      pass that is handed on from one backward non-recycle stream to the next WITHOUT passing a recycle of this network: the test the loop stops on (its recycles stand still)
+      never sees that value.  Test: from the items that receive a backward NON-recycle stream, walk the forward streams that are not recycles of this network; no source of a
+      backward non-recycle stream may be reached (the receiving item itself included).
+      A previous-pass value that reaches the source of a backward stream only THROUGH a recycle of this network is not judged: that stream is recomputed from the value of the
+      recycle in every pass and stands still one pass after the recycle does (witness of the thorough run: loop [U1, <U0 U3 U7 U9>, U4, U5, U8, U2, U6] with recycle U2->U7 and
+      the backward stream U0->U1 - both ends in the loop, the only way from U1 back to U0 is the recycle; a linear mixer/splitter model iterated in this order until U2->U7
+      stands still satisfies every unit equation).  An earlier version also started the walk at the items that receive a backward RECYCLE and so demanded more than the statement
+      (and more than its own stated reading).
     Where the path of a loop starts is free under this reading (any rotation of a correct loop order passes), and so is the library's habit of reporting the single outlet of
     the unit the backward streams enter in place of those streams.  Appends (level kind, text) to `found`; returns the units below `net`."""
     items = net.path; n = len(items); where = {}; flat = []
@@ -437,9 +442,8 @@ def order_inside_networks(net, edges, found):
         if pa is None or pb is None or pa == pb: continue
         if pa < pb:
             if sid not in own: fwd[pa].append(pb)
-        else:
-            stale[pb] = True
-            if sid not in own: back.append((pa, ua, ub))
+        elif sid not in own:
+            stale[pb] = True; back.append((pa, ua, ub))
     if not back: return flat
     names = [getattr(i, 'ID', '<network>') for i in items]
     if not own:
@@ -449,7 +453,7 @@ def order_inside_networks(net, edges, found):
         if stale[k]:
             for m in fwd[k]: stale[m] = True
     bad = [(ua.ID, ub.ID) for pa, ua, ub in back if stale[pa]]
-    if bad: found.append(('loop-level', f'in the loop {names} the backward stream(s) {bad[:4]} are not recycles of the loop and carry values of the previous pass that reach them around its recycle(s)'))
+    if bad: found.append(('loop-level', f'in the loop {names} the backward stream(s) {bad[:4]} are not recycles of the loop and carry on a value of the previous pass that reached their source from a backward non-recycle stream without passing a recycle of the loop (iteration state the loop never tests)'))
     return flat
 
 
